@@ -63,7 +63,7 @@ def check(run):
         f = ix.method(duror, name)
         uses = [n for n in walk_local(f.node) if isinstance(n, ast.Assign) and isinstance(n.value, ast.Call) and method_call(n.value) == ("self", "unsuffix")]
         if not uses:
-            run.ob("C24.R3", "%s:unsuffix-used" % f.fq, False, run.site(f), "scan no longer unsuffixes the cursor key")
+            run.inconclusive_at("C24.R3", run.site(f), "scan does not call self.unsuffix on the cursor key: key comparison idiom not recognised")
             continue
         for u in uses:
             ck = u.targets[0].elts[0].id if isinstance(u.targets[0], ast.Tuple) else None
